@@ -422,7 +422,9 @@ class Executor:
             run.unavailable.clear()
             run.unfresh.clear()
             wants_defer = False
-            self.workflow.update_file_hashes(new_inp_hashes, cause=HashUpdateCause.FAILED)
+            self.workflow.update_file_hashes(
+                self._applicable_input_updates(new_inp_hashes), cause=HashUpdateCause.FAILED
+            )
         elif wants_defer:
             # Rescheduling in the `mark_completed()`` method needs the new hash to be None,
             # so the step is not marked as succeeded.
@@ -433,6 +435,24 @@ class Executor:
             new_hash = None
 
         return new_hash, wants_defer
+
+    def _applicable_input_updates(
+        self, new_inp_hashes: Mapping[str, FileHash]
+    ) -> dict[str, FileHash]:
+        """Select the changed inputs whose hash can still be recorded.
+
+        The new hashes were computed outside a transaction.
+        Meanwhile, another request may have re-declared an input (`UNCONFIRMED`)
+        or recorded that it is gone (`MISSING`),
+        for which `Workflow.update_file_hashes()` has no transition with cause `FAILED`.
+        Only inputs that are still `BUILT` or `CONFIRMED`, as when they were checked, are kept.
+        """
+        applicable = {}
+        for path, file_hash in new_inp_hashes.items():
+            file = self.workflow.find(File, path)
+            if file is not None and file.get_state() in (FileState.BUILT, FileState.CONFIRMED):
+                applicable[path] = file_hash
+        return applicable
 
     def _report_step_counts(self) -> None:
         """Request a step-state counts report, coalescing with any already pending.
@@ -516,7 +536,9 @@ class Executor:
         unexpected_input_changes = len(new_inp_hashes) > 0
         if unexpected_input_changes:
             async with self.db:
-                self.workflow.update_file_hashes(new_inp_hashes, cause=HashUpdateCause.FAILED)
+                self.workflow.update_file_hashes(
+                    self._applicable_input_updates(new_inp_hashes), cause=HashUpdateCause.FAILED
+                )
         await self._finalize_failed_run(run)
         if unexpected_input_changes:
             await self._drain_for_unexpected_input_changes()
